@@ -68,3 +68,154 @@ R.contract(
     ]}},
     locals={"picked": "List[str]", "used": "Set[str]"},
 )
+
+
+# ------------------------------------------------------------------ _resolve_graphs_for_agent never raises
+# (1) for *all* inputs (any Python objects): a structural obligation -- the whole body is one try statement whose
+#     `except Exception` handler neither raises nor returns, followed by a total `return set()`; so no Exception can
+#     escape (BaseException subclasses such as KeyboardInterrupt are outside the claim).
+# (2) for the documented state shapes: symbolic execution with raises="none" plus the value it resolves to.
+
+def _resolve_structure():
+    import z3
+    from pyvc import frontend
+    _, _, fn = frontend.find_function(OP + "_resolve_graphs_for_agent")
+    body = [s for s in fn.body if not (isinstance(s, ast.Expr) and isinstance(s.value, ast.Constant))]
+    is_try = len(body) == 2 and isinstance(body[0], ast.Try)
+    t = body[0] if is_try else None
+
+    def catch_all(h):
+        return h.type is None or (isinstance(h.type, ast.Name) and h.type.id in ("Exception", "BaseException"))
+
+    catches_all = bool(t) and not t.finalbody and not t.orelse and any(catch_all(h) for h in t.handlers)
+    inert = False
+    if catches_all:
+        upto = [i for i, h in enumerate(t.handlers) if catch_all(h)][0]
+        # handlers up to and including the catch-all one must be inert: only `pass` / constant expressions
+        inert = all(all(isinstance(s, ast.Pass) or (isinstance(s, ast.Expr) and isinstance(s.value, ast.Constant))
+                        for s in h.body) for h in t.handlers[:upto + 1])
+    last = body[-1] if body else None
+    total_return = isinstance(last, ast.Return) and isinstance(last.value, ast.Call) and \
+        isinstance(last.value.func, ast.Name) and last.value.func.id == "set" and not last.value.args \
+        and not last.value.keywords
+    return [("body-is-try-then-return", [], z3.BoolVal(bool(is_try))),
+            ("try-has-except-Exception", [], z3.BoolVal(bool(catches_all))),
+            ("handlers-are-inert", [], z3.BoolVal(bool(inert))),
+            ("fallback-return-set()-is-total", [], z3.BoolVal(bool(total_return)))]
+
+
+R.lemma("_resolve_graphs_for_agent/never-raises-structure", "C10", _resolve_structure)
+
+GL = "List[str]"
+R.dictrec("OStateD", {"agents": "Dict[str, Dict[str, " + GL + "]]", "graphs_by_agent": "Dict[str, " + GL + "]"})
+R.dictrec("OStateE", {})
+HAS_A = "(agent_id in state['agents'] and len(state['agents'][agent_id]) > 0 and 'graphs' in state['agents'][agent_id])"
+IN_LIST = "exists(i, 0 <= i < len(%s), %s[i] == g)"
+R.contract(
+    OP + "_resolve_graphs_for_agent", "C10", name="_resolve_graphs_for_agent[dict state]", callee=False,
+    types={"state": "OStateD", "agent_id": "str"},
+    returns="Set[str]",
+    ensures=[
+        ("agents-entry-wins",
+         "implies(" + HAS_A + ", forall((g, 'str'), True, (g in result) == " +
+         IN_LIST % ("state['agents'][agent_id]['graphs']", "state['agents'][agent_id]['graphs']") + "))"),
+        ("else-graphs_by_agent",
+         "implies(not " + HAS_A + " and agent_id in state['graphs_by_agent'], forall((g, 'str'), True, (g in result) == " +
+         IN_LIST % ("state['graphs_by_agent'][agent_id]", "state['graphs_by_agent'][agent_id]") + "))"),
+        ("else-empty", "implies(not " + HAS_A + " and not (agent_id in state['graphs_by_agent']), len(result) == 0)"),
+    ],
+    raises="none",
+)
+R.contract(
+    OP + "_resolve_graphs_for_agent", "C10", name="_resolve_graphs_for_agent[empty dict state]", callee=False,
+    types={"state": "OStateE", "agent_id": "str"},
+    returns="Set[str]",
+    ensures=[("empty", "len(result) == 0")],
+    raises="none",
+)
+R.contract(
+    OP + "_resolve_graphs_for_agent", "C10", name="_resolve_graphs_for_agent[state None]", callee=False,
+    types={"state": "None", "agent_id": "str"},
+    returns="Set[str]",
+    ensures=[("empty", "len(result) == 0")],
+    raises="none",
+)
+
+
+# ------------------------------------------------------------------ _sort_turn_buffers: total order (turn_id, slice_idx)
+# a _TurnBuffer is a TypedDict; only its keys turn_id / slice_idx are read here, so it is modelled as a dict-like
+# record value over those two keys (type invariant: both present, slice_idx an int -- `int(None)` in the except arm of
+# _key would escape otherwise).  turn_id: int | str (documented): one record type per alternative.
+R.record("TurnBufI", {"turn_id": "int", "slice_idx": "int"}, dictlike=True)
+R.record("TurnBufS", {"turn_id": "str", "slice_idx": "int"}, dictlike=True)
+KEYFN = OP + "_sort_turn_buffers.<locals>._key"
+R.contract(
+    KEYFN, "C10", name="_sort_turn_buffers._key[int turn_id]",
+    types={"buf": "TurnBufI"},
+    ensures=[], pure_result="(0, buf['turn_id'], buf['slice_idx'])",
+    raises="none",
+)
+R.contract(
+    KEYFN, "C10", name="_sort_turn_buffers._key[str turn_id]", callee=False,
+    types={"buf": "TurnBufS"},
+    ensures=[
+        ("numeric-strings-rank-as-ints",
+         "implies(int_parses(buf['turn_id']), result[0] == 0 and result[1] == int_value(buf['turn_id']) and "
+         "result[2] == buf['slice_idx'])"),
+        ("other-strings-rank-after-all-ints-by-text",
+         "implies(not int_parses(buf['turn_id']), result[0] == 1 and result[1] == buf['turn_id'] and "
+         "result[2] == buf['slice_idx'])"),
+    ],
+    raises="none",
+)
+R.contract(
+    OP + "_sort_turn_buffers", "C10", name="_sort_turn_buffers[int turn_id]", callee=False,
+    types={"buffers": "List[TurnBufI]"},
+    returns="List[TurnBufI]",
+    ensures=[
+        # a permutation (p strictly increasing in a strict order => injective), ordered by (turn_id, slice_idx),
+        # ties in input order (stable)
+        ("stable-permutation-ordered-by-(turn_id,slice_idx)",
+         "len(result) == len(buffers) and exists_fn(p, "
+         " forall(j, 0 <= j < len(result), 0 <= p(j) and p(j) < len(buffers) and result[j] == buffers[p(j)]) and "
+         " forall2(a, b, 0 <= a and a < b and b < len(result), "
+         "   (buffers[p(a)]['turn_id'], buffers[p(a)]['slice_idx'], p(a)) < (buffers[p(b)]['turn_id'], buffers[p(b)]['slice_idx'], p(b))))"),
+        ("input-untouched", "seq_eq(buffers, old(buffers))"),
+    ],
+    raises="none",
+)
+
+
+def _key_order_lemma():
+    """the keys produced by _key -- (0, int, int) or (1, str, int) -- are totally ordered by Python's tuple
+    comparison, and comparing two of them never compares an int with a str (first components decide mixed cases)"""
+    import z3
+    Key = z3.Datatype("SortKey")
+    Key.declare("mk", ("tag", z3.IntSort()), ("i", z3.IntSort()), ("s", z3.StringSort()), ("c", z3.IntSort()))
+    Key = Key.create()
+    a, b, c = z3.Consts("ka kb kc", Key)
+    wf = lambda k: z3.Or(Key.tag(k) == 0, Key.tag(k) == 1)
+
+    def second_lt(x, y):      # comparison of the second components, only meaningful when the tags agree
+        return z3.If(Key.tag(x) == 0, Key.i(x) < Key.i(y), Key.s(x) < Key.s(y))
+
+    def second_eq(x, y):
+        return z3.If(Key.tag(x) == 0, Key.i(x) == Key.i(y), Key.s(x) == Key.s(y))
+
+    def lt(x, y):
+        return z3.Or(Key.tag(x) < Key.tag(y),
+                     z3.And(Key.tag(x) == Key.tag(y),
+                            z3.Or(second_lt(x, y), z3.And(second_eq(x, y), Key.c(x) < Key.c(y)))))
+
+    def same(x, y):
+        return z3.And(Key.tag(x) == Key.tag(y), second_eq(x, y), Key.c(x) == Key.c(y))
+    # python evaluates x[1] < y[1] only when x[0] == y[0]; then both are ints (tag 0) or both strs (tag 1)
+    mixed = z3.And(Key.tag(a) == Key.tag(b), z3.Or(z3.And(Key.tag(a) == 0, Key.tag(b) == 1), z3.And(Key.tag(a) == 1, Key.tag(b) == 0)))
+    return [("never-compares-int-with-str", [wf(a), wf(b)], z3.Not(mixed)),
+            ("total", [wf(a), wf(b)], z3.Or(lt(a, b), same(a, b), lt(b, a))),
+            ("irreflexive", [wf(a)], z3.Not(lt(a, a))),
+            ("asymmetric", [wf(a), wf(b), lt(a, b)], z3.Not(lt(b, a))),
+            ("transitive", [wf(a), wf(b), wf(c), lt(a, b), lt(b, c)], lt(a, c))]
+
+
+R.lemma("_sort_turn_buffers/key-order-is-total", "C10", _key_order_lemma)
